@@ -152,6 +152,22 @@ def check_message(case):
         fails.append(Failure(f'encode-differs:{area}{":enc" if enc else ""}',
                              f'library bytes differ from the RFC 7296 reference encoding at offset {i} '
                              f'(lib {got[i:i + 8].hex()} ref {ref[i:i + 8].hex()}), lengths {len(got)}/{len(ref)}'))
+    # (1b) serialising is an observation: a second serialisation gives the same bytes and the dump written afterwards (the
+    # daemon logs a message after sending it) still lists the message's payloads
+    try:
+        again = bytes(lib.to_bytes())
+        after = lib.to_dict()
+        if again != got:
+            fails.append(Failure(f'to_bytes-not-repeatable{":enc" if enc else ""}',
+                                 f'a second to_bytes() of the same message gives {len(again)} octets, the first gave {len(got)}'
+                                 if len(again) != len(got) else 'a second to_bytes() of the same message gives other bytes'))
+        names = [e.get('type') for e in (after['encrypted_payloads'] if enc else after['payloads'])]
+        if names != [RFC_NAME[p['t']] for p in m['payloads']] or (enc and after['payloads']):
+            fails.append(Failure(f'dump-after-to_bytes{":enc" if enc else ""}',
+                                 f'after serialising, the dump lists clear {[e.get("type") for e in after["payloads"]]} / encrypted '
+                                 f'{[e.get("type") for e in after["encrypted_payloads"]]} for {[p["t"] for p in m["payloads"]]}'))
+    except Exception as ex:
+        fails.append(Failure(f'to_bytes-twice-raises:{type(ex).__name__}', f'second to_bytes / dump raised {type(ex).__name__}: {ex}'))
     # (2) parsing the reference bytes
     try:
         parsed = A.Message.parse(ref, crypto=c06.crypto_for(enc['ks']) if enc else None)
@@ -190,6 +206,17 @@ def check_message(case):
     else:
         for p, e in zip(want, entries):
             fails += check_dump_entry(p, e)
+    # header values as such (the names are the library's; their meaning is RFC 7296 3.1: R = response, I = sent by the
+    # original initiator, V = can use a higher version)
+    fl_ = m['flags']
+    want_h = {'spi_i': m['spi_i'], 'spi_r': m['spi_r'], 'major': m.get('major', 2), 'minor': m.get('minor', 0), 'message_id': m['msgid'],
+              'is_request': not fl_['response'], 'is_response': fl_['response'], 'is_initiator': fl_['initiator'],
+              'is_responder': not fl_['initiator'], 'can_use_higher_version': fl_['version']}
+    for k, v in want_h.items():
+        if k in dump and dump[k] != v:
+            fails.append(Failure(f'dump-header-value:{k}', f'the dump shows {k} = {dump[k]!r} for a header that encodes {v!r}'))
+        elif k not in dump and k not in ('is_request', 'is_responder'):
+            fails.append(Failure(f'dump-hides:header.{k}', f'message dump has no entry {k}'))
     hd = json.dumps({k: v for k, v in dump.items() if 'payloads' not in k}, sort_keys=True)
     for f in ('spi_i', 'spi_r', 'major', 'minor', 'exchange', 'msgid'):
         m2 = dict(m, payloads=[])
